@@ -326,6 +326,32 @@ def main(pid, tier, seed):
             traces += lg
             n_lower_strings[0] += sum(len(t_['ref']) for t_ in lg)
 
+    # ---- the shipped rulesets' base-structure lists (more than ten thousand lines with every label shape real data produces)
+    # ---- through the real loader: every line becomes its variables with a case mask after every alpha variable (InsertC), with
+    # ---- and without --skip_brute, for the Grammar and the Prince folder
+    import re as _re
+    n_shipped_lines = 0
+    for rname in (('Default',) if tier == 'quick' else ('Default', 'Russian')):
+        d = os.path.join(core.REPO, 'Rules', rname)
+        for folder in ('Grammar', 'Prince'):
+            fnm = os.path.join(d, folder, 'grammar.txt')
+            if not os.path.exists(fnm):
+                continue
+            recs = rulesets.neutral_value_prob(fnm)
+            for skip in (False, True):
+                try:
+                    pc = ptq.load_pcfg(d, folder=folder, skip_brute=skip)
+                except Exception:
+                    continue        # (--skip_brute on a list without M is the fixed finding F3a's business, covered above)
+                kept = [(v, p_) for v, p_ in recs if not (skip and 'M' in v)]
+                labels = [[[m_.group(1), int(m_.group(2) or 0)] for m_ in _re.finditer(r'([A-Z])([0-9]*)', v)] for v, _ in kept]
+                loaded = [parse_reps(b['replacements']) for b in pc.base]
+                tid += 1
+                traces.append({'tid': tid, 'kind': 'structs', 'labels': labels, 'loaded': loaded})
+                meta[tid] = {'kind': 'shipped ruleset %s/%s' % (rname, folder), 'skip_brute': skip, 'check': 'shipped base structures as loaded',
+                             'lines': len(kept), 'base': [[v, 0] for v, _ in kept[:6]]}
+                n_shipped_lines += len(kept)
+
     # ---- flags come from the save file on --load (real command line) ----
     rcopy = core.repo_copy('cli')
     jobs = []
@@ -408,7 +434,7 @@ def main(pid, tier, seed):
            'rule': 'load trace = one real _load_base_structures call on one model file (non-trivial: more than one line); '
                    'stream/lower trace = one ruleset loaded and enumerated with and without the flag; lines trace = two '
                    'pcfg_guesser.py processes (start with flags, resume with plain --load)',
-           'trace_kinds': kinds, 'strings_compared_under_all_lower': n_lower_strings[0], 'model_files_instantiated': len(files), 'cli_pairs': len(jobs),
+           'trace_kinds': kinds, 'shipped_base_structure_lines_loaded': n_shipped_lines, 'strings_compared_under_all_lower': n_lower_strings[0], 'model_files_instantiated': len(files), 'cli_pairs': len(jobs),
            'trace_validation': st, 'exhaustive': False, 'known_findings_reproduced': n_known, 'binding_selftest': selftest,
            'violation_histogram': verdict.histogram()}
     core.write_evidence(pid, tier, seed, 'model_checking', cov, time.time() - t0, violations=n_viol,
